@@ -62,6 +62,7 @@ type Item struct {
 	Detail  string  `json:"detail,omitempty"`
 	Where   string  `json:"where,omitempty"`
 	Bounded bool    `json:"bounded,omitempty"`
+	Reproduced bool `json:"-"`
 	Model   string  `json:"-"`
 	Goal    string  `json:"-"`
 }
@@ -318,7 +319,10 @@ func finish(cc *CheckCtx, t0 time.Time, seed int) {
 	sort.SliceStable(violations, func(i, j int) bool { return violations[i].Name < violations[j].Name })
 	for _, it := range violations {
 		body := map[string]any{"kind": it.Kind, "status": it.Status, "what": it.Detail, "where": it.Where, "backend": it.Backend, "solver_output": truncate(it.Model, 20000), "smt_goal": truncate(it.Goal, 4000)}
-		reproduced := false
+		reproduced := it.Reproduced
+		if it.Reproduced {
+			body["failing_input"] = it.Model
+		}
 		if rp, ok := replayers[it.Kind]; ok && it.Model != "" {
 			reproduced = rp(cc, it, body)
 		}
